@@ -12,6 +12,16 @@ from checks import mergelib
 THEOREMS = ['Nbdime.C06_disjoint_list_patches', 'Nbdime.C06_onesided_applies_local']
 
 
+@vlib.classifier('numeric-alias-owned')
+def _cls_alias_owned(data, finding):
+    """the merged notebook differs from the expected one only by numbers that Python's == identifies (False/0, 1/1.0)"""
+    from checks.c02 import norm_alias
+    if data.get('kind') not in ('owned', 'rootkey') or 'got' not in data:
+        return False
+    got, want = dec(data['got']), dec(data['expected'])
+    return canon(got) != canon(want) and canon(norm_alias(got)) == canon(norm_alias(want))
+
+
 def owned_case(rng, minor=None):
     minor = rng.choice([4, 5, 5]) if minor is None else minor
     used = set()
